@@ -120,7 +120,9 @@ class FrameItem(EFLRItem):
                                    f"for {index_channel} of {self}")
             spacing, direction = self._compute_spacing_and_direction(index_data)
 
-            if spacing is None:
+            if spacing is None and index_data.shape[0] < 2:
+                pass  # a single row has neither spacing nor direction
+            elif spacing is None:
                 # spacing cannot be used because it is not uniform enough; using only direction - if available
                 m = (f"Spacing of the index channel of {self} is not uniform; this can cause issues in some viewer "
                      f"software. Consider implicit indexing by row number number instead "
@@ -143,7 +145,11 @@ class FrameItem(EFLRItem):
             If direction cannot be determined, it is assigned to None.
         """
 
-        diff = np.diff(index_data)
+        if index_data.shape[0] < 2:
+            return None, None
+
+        # differences are computed in float64 so that unsigned and narrow integer types cannot wrap around
+        diff = np.diff(index_data.astype(np.float64))
         diff_unique = np.unique(diff)
 
         if (diff_unique == 0).all():
